@@ -9,9 +9,9 @@ monitor event is attributable to one update.  For each update of a monitored sig
 and updates after a resume are reported again (exactly once each).  Whenever the engine is idle, and after
 'unmonitor', the signal's subscription table holds no engine callback.
 Not asserted: updates delivered in the transient windows 'pausing' / 'suspending' and within the handle in
-which monitor/unmonitor/close_run themselves run (either answer is legitimate there); updates delivered
-while suspended once two interruptions have overlapped (a second suspension, or a pause and resume, inside a
-suspension: the inner release re-instates the monitors before the outer one ends -- compound case, C11).
+which monitor/unmonitor/close_run themselves run (either answer is legitimate there).
+Overlapping interruptions are asserted like any other: while any suspension is still in effect (a second
+suspension released before the first, a pause and resume inside a suspension) no update is reported.
 """
 
 from . import streams
@@ -89,8 +89,6 @@ def check(res):
             val = d["value"]
             if e.step == last_struct_step or state in ("pausing", "suspending", "aborting", "stopping", "halting"):
                 expect[val] = None
-            elif overlapped and suspended:
-                expect[val] = None  # overlapping suspensions: the inner release re-instates monitors (C11's topic)
             elif monitored and state == "running" and suspended == 0:
                 expect[val] = 1
             else:
